@@ -270,7 +270,21 @@ class IxWalk:
                     self.note("IX-seq", f"stored values are aligned with the positions they are stored at: {ast.unparse(t)[:50]} = {ast.unparse(st.value)[:50]}",
                               f"positions follow `{sel.rows}`, values follow `{v.rows}`", st, ok)
         elif isinstance(t, ast.Attribute):
-            pass
+            # fields of the object under construction / being updated: subs and vals must stay aligned
+            if isinstance(t.value, ast.Name) and self.fi.cls and self.fi.params() and t.value.id == self.fi.params()[0] and t.attr in ("subs", "vals"):
+                env[f"<field>{t.attr}"] = v
+                oname = "vals" if t.attr == "subs" else "subs"
+                other = env.get("<field>" + oname)
+                pending = env.get("<pending>")
+                # stores come in pairs: the pair is complete when the partner field is the pending one
+                complete = pending is not None and pending.obj == oname
+                env["<pending>"] = None if complete else IV("scalar", obj=t.attr)
+                if env["<pending>"] is None:
+                    env.pop("<pending>")
+                if complete and other is not None and v.kind in ("arr", "idx", "mask") and other.kind in ("arr", "idx", "mask") and v.rows and other.rows:
+                    a, b = (v, other) if t.attr == "subs" else (other, v)
+                    self.note("IX-pair", f"the stored subscripts and values are aligned: self.subs / self.vals in {self.fi.name}",
+                              f"subscripts follow `{a.rows}`, values follow `{b.rows}`", st, rel(a.rows, b.rows))
 
     # ------------------------------------------------------------ expressions
     def selector(self, sl: ast.expr, env) -> Optional[IV]:
@@ -278,6 +292,8 @@ class IxWalk:
         if isinstance(first, (ast.Slice, ast.Constant)):
             return None
         v = self.ev(first, env)
+        if v.kind == "tuple" and v.elts and v.elts[0].kind in ("idx", "mask"):
+            v = v.elts[0]  # X[np.nonzero(m)] : the tuple of index arrays selects rows by its first member
         return v if v.kind in ("idx", "mask") else None
 
     def check_dom(self, base: IV, sel: IV, node, text):
@@ -318,6 +334,10 @@ class IxWalk:
             b = self.ev(e.value, env)
             if b.kind == "obj" and b.obj:
                 if e.attr in ("subs", "vals"):
+                    if self.fi.cls and self.fi.params() and b.obj == self.fi.params()[0] and f"<field>{e.attr}" in env:
+                        fv = env[f"<field>{e.attr}"]
+                        if fv.kind in ("arr", "idx", "mask"):
+                            return IV("arr", rows=fv.rows, shp=fv.shp or ("mat" if e.attr == "subs" else "col"))
                     return IV("arr", rows=b.obj, shp="mat" if e.attr == "subs" else "col")
                 if e.attr in ("shape", "nnz", "ndims", "order", "size"):
                     return SCALAR
@@ -401,6 +421,8 @@ class IxWalk:
         if isinstance(first, ast.Constant) and first.value is None:
             return base
         sel = self.ev(first, env)
+        if sel.kind == "tuple" and sel.elts and sel.elts[0].kind in ("idx", "mask") and not rest:
+            sel = sel.elts[0]
         if sel.kind in ("idx", "mask"):
             self.check_dom(base, sel, e, ast.unparse(e)[:70])
             if sel.kind == "idx":
